@@ -20,7 +20,8 @@ Dims == <<
   <<"", "a=1&b=2", "q=%20%26&x", "a=1&a=2;c=3">>,                                              \* 3 query
   <<"none", "multi", "emptyval", "cookies", "accept_enc", "custom_ae", "te_trailers", "xff", "expect_100">>, \* 4 request headers
   <<"none", "cl_small", "cl_32k", "cl_big", "chunked_small", "chunked_big">>,                  \* 5 request body
-  <<"200", "201", "204", "304", "301", "404", "500", "503", "103+404", "103+200">>,             \* 6 status (103+x: Early Hints first)
+  <<"200", "201", "204", "304", "301", "404", "500", "503", "103+404", "103+200", "403early">>,  \* 6 status (103+x: Early Hints first; 403early:
+                                                                \* 403, and a request that asks first (Expect: 100-continue) is refused unread)
   <<"plain", "setcookies", "unusual_ct", "pre_gzip", "no_ct", "own_ids">>,                               \* 7 response headers
   <<"none", "cl_small", "cl_64k1", "chunked3", "stream3", "sse", "cl_stream3", "cl_stream_small">>,                              \* 8 response body
   <<"", "/api">>,                                                                               \* 9 backend base path
@@ -38,6 +39,13 @@ PairCase(i, j, a, b) == [k \in 1..NDims |-> IF k = i THEN Dims[i][a] ELSE IF k =
                                             ELSE Dims[k][((a * 7 + b * 3 + k + i) % Len(Dims[k])) + 1]]
 DimPairs == {p \in (1..NDims) \X (1..NDims) : p[1] < p[2]}
 PairCases == UNION {{PairCase(p[1], p[2], a, b) : a \in DOMAIN Dims[p[1]], b \in DOMAIN Dims[p[2]]} : p \in DimPairs}
+
+\* a client that asks before it sends (Expect: 100-continue, body held back) against a backend that accepts and against
+\* one that refuses from the header block alone: "100 Continue" reaches the client exactly when the backend issued it
+ExpectCases == {[k \in 1..NDims |-> CASE k = 1 -> m [] k = 4 -> "expect_100" [] k = 5 -> b [] k = 6 -> st [] k = 10 -> sg [] k = 11 -> ids
+                                      [] k = 12 -> pl [] k = 13 -> "bare" [] OTHER -> Dims[k][1]] :
+                  m \in {"POST", "PUT"}, b \in {"cl_small", "cl_32k", "chunked_small"}, st \in {"403early", "200", "404"},
+                  sg \in {"round_robin"}, ids \in {"ids_on"}, pl \in {"noplugins", "logging"}}
 
 \* request headers Helios documents adding (lower-case names)
 AllowedAdded == {"x-forwarded-for", "x-request-id", "x-trace-id"}
@@ -60,6 +68,7 @@ Check(c, o) ==
      \o (IF o.reached /\ missing # {} THEN <<"RequestHeaderDropped">> ELSE <<>>)
      \o (IF v.resp.status # d.resp.status THEN <<"Status">> ELSE <<>>)
      \o (IF v.resp.interim # d.resp.interim THEN <<"InterimResponses">> ELSE <<>>)
+     \o (IF v.resp.got100 # d.resp.got100 THEN <<"ContinueHandshake">> ELSE <<>>)
      \o (IF \E h \in rextra : Name(h) \notin AllowedOnResponse THEN <<"ResponseHeaderAdded">> ELSE <<>>)
      \o (IF rmissing # {} THEN <<"ResponseHeaderDropped">> ELSE <<>>)
      \o (IF v.resp.body # d.resp.body THEN <<"ResponseBody">> ELSE <<>>)
